@@ -16,6 +16,7 @@ pub mod c14;
 pub mod c16;
 pub mod c18;
 pub mod c19;
+pub mod credprops;
 pub mod simprops;
 
 pub fn run(prop: &str, ctx: &mut Ctx) -> Result<(), String> {
@@ -29,6 +30,10 @@ pub fn run(prop: &str, ctx: &mut Ctx) -> Result<(), String> {
         "C16" => c16::run(ctx),
         "C18" => c18::run(ctx),
         "C19" => c19::run(ctx),
+        "C07" => credprops::run_c07(ctx),
+        "C08" => credprops::run_c08(ctx),
+        "C10" => credprops::run_c10(ctx),
+        "C13" => credprops::run_c13(ctx),
         "C05" => simprops::run_c05(ctx),
         "C06" => simprops::run_c06(ctx),
         "C11" => simprops::run_c11(ctx),
